@@ -23,7 +23,7 @@ func init() {
 	core.Register(&core.Property{
 		ID:         "C17",
 		Exhaustive: true,
-		Rule:       "exhaustive: every evaluate-option list of length 0..4 over {valid System value, valid FHIR element, valid collection, duplicate name, predefined names context/ucum, unsupported type, unsupported type nested in a collection, nil, OverrideTime} in every order, and every compile-option list of length 0..3 (thorough: 4) over {well-typed function, typed-argument function, wrong first parameter, wrong results, variadic, zero-argument, existing built-in name, duplicate custom name, non-function, WithExperimentalFuncs, Permissive} in every order; with an instrumented custom function that counts its invocations and records what it received; programs referencing each variable at the root, inside function arguments and inside where/select criteria. distinct_nontrivial = distinct option lists containing at least one failing option or two interacting options",
+		Rule:       "exhaustive: every evaluate-option list of length 0..4 over {valid System value, valid FHIR element, valid collection, duplicate name, predefined names context/ucum, unsupported type, unsupported type nested in a collection, collection nested in a collection, nil, OverrideTime} in every order, and every compile-option list of length 0..3 (thorough: 4) over {well-typed function, typed-argument function, wrong first parameter, wrong results, variadic, zero-argument, existing built-in name, duplicate custom name, non-function, WithExperimentalFuncs, Permissive} in every order; with an instrumented custom function that counts its invocations and records what it received; programs referencing each variable at the root, inside function arguments and inside where/select criteria. distinct_nontrivial = distinct option lists containing at least one failing option or two interacting options",
 		Assumptions: []string{"when several options fail, the returned error must match at least one of the failing options' sentinel errors",
 			"variadic custom functions are outside the 'fixed parameter list' contract: only totality is required"},
 		Run:    runC17,
@@ -44,7 +44,7 @@ var c17Name = &dtpb.HumanName{Family: &dtpb.String{Value: "Env"}}
 var c17Coll = system.Collection{system.Integer(1), system.String("x"), c17Name}
 
 // evaluate-option kinds
-var c17EvalKinds = []string{"sys", "elem", "coll", "dup", "predef-context", "predef-ucum", "unsupported", "nested-unsupported", "nil", "time"}
+var c17EvalKinds = []string{"sys", "elem", "coll", "dup", "predef-context", "predef-ucum", "unsupported", "nested-unsupported", "nested-collection", "nil", "time"}
 
 func c17EvalOpt(kind string) fhirpath.EvaluateOption {
 	switch kind {
@@ -64,6 +64,9 @@ func c17EvalOpt(kind string) fhirpath.EvaluateOption {
 		return evalopts.EnvVariable("u", 42)
 	case "nested-unsupported":
 		return evalopts.EnvVariable("n", system.Collection{system.Integer(1), system.Collection{system.String("ok"), "raw go string"}})
+	case "nested-collection":
+		// collections are flat: a collection holding a collection (of valid items) is not "a collection of those"
+		return evalopts.EnvVariable("nc", system.Collection{system.Integer(1), system.Collection{system.String("ok")}})
 	case "nil":
 		return evalopts.EnvVariable("z", nil)
 	case "time":
@@ -120,7 +123,7 @@ func c17EvalList(env *core.Env, kinds []string) {
 			}
 		case "predef-context", "predef-ucum":
 			expExisting = true
-		case "unsupported", "nested-unsupported", "nil":
+		case "unsupported", "nested-unsupported", "nested-collection", "nil":
 			expUnsupported = true
 		}
 	}
